@@ -9,6 +9,11 @@ FEATCHAR = CATCHAR.minus(',', 'featchar')
 TERNCHAR = CATCHAR.minus(',=', 'ternchar')
 
 
+# "plain" characters: no ASCII punctuation at all (letters, digits, Latin-1 letters, kana, CJK): used for the leaves that are
+# not the focus of an obligation, so that the special-character case analysis of the code does not multiply across leaves
+PLAIN = Alpha([(0x30, 0x39), (0x41, 0x5A), (0x61, 0x7A), (0xC0, 0xFF), (0x3041, 0x30FF), (0x4E00, 0x9FFF)], exclude=[0xD7, 0xF7], name='plain')
+
+
 def shapes(n):
     """all binary tree shapes with exactly n leaves: 'a' or (l, r)"""
     if n == 1:
@@ -44,29 +49,35 @@ class Builder:
     """
 
     def __init__(self, d, prefix, lb=1, lf=1, feat='unary', base_alpha=CATCHAR, feat_alpha=FEATCHAR,
-                 slashes='/\\', tern_alpha=TERNCHAR, lk=1):
+                 slashes='/\\', tern_alpha=TERNCHAR, lk=1, full=None, plain_alpha=PLAIN):
         self.d, self.p, self.lb, self.lf, self.feat = d, prefix, lb, lf, feat
         self.ba, self.fa, self.ta, self.slashes, self.lk = base_alpha, feat_alpha, tern_alpha, slashes, lk
         self.n = 0
+        self.full, self.pa, self.leaf = full, plain_alpha, -1
 
     def _name(self, kind):
         self.n += 1
         return '%s.%s%d' % (self.p, kind, self.n)
 
+    def _isfull(self):
+        return self.full is None or self.leaf in self.full
+
     def feature(self):
         C = cats()
         d = self.d
         f = self.feat
+        fa = self.fa if self._isfull() else self.pa
+        ta = self.ta if self._isfull() else self.pa
         if f == 'mixed':
             f = 'unary' if d.boolean(self._name('hasf')) else 'none'
         if f == 'none':
             return C.UnaryFeature()
         if f == 'unary':
-            return C.UnaryFeature(d.string(self._name('f'), self.lf, self.fa))
+            return C.UnaryFeature(d.string(self._name('f'), self.lf, fa))
         if f == 'ternary':
             kvs = []
             for i in range(3):
-                kvs.append((d.string(self._name('k'), self.lk, self.ta), d.string(self._name('v'), self.lf, self.ta)))
+                kvs.append((d.string(self._name('k'), self.lk, ta), d.string(self._name('v'), self.lf, ta)))
             return C.TernaryFeature(*kvs)
         raise ValueError(f)
 
@@ -78,7 +89,8 @@ class Builder:
     def build(self, shape):
         C = cats()
         if shape == 'a':
-            return C.Atom(self.d.string(self._name('b'), self.lb, self.ba), self.feature())
+            self.leaf += 1
+            return C.Atom(self.d.string(self._name('b'), self.lb, self.ba if self._isfull() else self.pa), self.feature())
         l = self.build(shape[0])
         s = self.slash()
         r = self.build(shape[1])
